@@ -255,13 +255,13 @@ def make_sims(rng, n):
         hk = rng.choice(["Linear", "Voce"])
         kk = rng.choice(["none", "Prager"])
         rk = rng.choice(["none", "none", "Norton1"])
-        cfg = gen_config(rng, (yk, hk, kk, rk, rng.choice([0, 0, 1]), mode, "iso"))
+        cfg = gen_config(rng, (yk, hk, kk, rk, 1 if i % 4 == 3 else 0, mode, "iso"))
         L = 10.0
         u1 = cfg["eps_y"] * L
         ops = []
         lvl = 0.0
         for k in range(rng.randint(4, 7)):
-            lvl += u1 * rng.uniform(0.4, 1.2) * (1 if k < 4 else -1)
+            lvl += u1 * rng.uniform(0.25, 0.6) * (1 if k < 4 else -1)
             ops.append(["solve", float("%.6g" % lvl)])
             r = rng.random()
             if r < 0.3:
@@ -273,8 +273,26 @@ def make_sims(rng, n):
             ops.append(["save"])
             if rng.random() < 0.3:
                 ops.append(["set", rng.choice([-1, 0, k // 2])])
+        # every run restores a saved iteration at least once, saves right after it, and goes on
+        ops += [["set", 0 if i % 2 else -1], ["save"], ["solve", float("%.6g" % (0.8 * lvl))], ["save"]]
         cfg["ops"] = ops
         cfg["elem"] = rng.choice(["QUAD4", "TRI3"])
         cfg["id"] = "sim%02d-%s-%s" % (i, mode, "/".join([yk, hk, kk, rk]))
         sims.append(cfg)
     return sims
+
+
+def corpus():
+    """Fixed regression cases, always run first (minimised past failures)."""
+    base = {"mode": "3D", "elastic": {"kind": "iso", "E": 164000.0, "v": 0.23}, "yield": {"kind": "VonMises", "sigma_y": 167.0},
+            "hardening": {"kind": "Swift", "K": 361.0, "n": 0.19, "eps0": 0.00205}, "eps_y": 167.0 / 164000.0}
+    c1 = dict(base, rate={"kind": "Norton", "A": 0.000273, "n": 4.7, "sigma_0": 167.0}, dt=0.505,
+              id="corpus-spectral-rate-n4.7", combo=["VonMises", "Swift", "none", "NortonN", 0, "3D", "iso"], path_kind="proportional",
+              path=[[-0.0009989, -0.001108, 0.0007, 0.0, 0.0, -0.0012959], [-0.0019978, -0.002216, 0.0014, 0.0, 0.0, -0.0025918]],
+              fd_steps=[1], fd_h=2e-6, compare_solver=True)
+    c2 = {"mode": "3D", "elastic": {"kind": "iso", "E": 219000.0, "v": 0.08}, "yield": {"kind": "VonMises", "sigma_y": 138.0},
+          "hardening": {"kind": "Voce", "Q": 77.3, "b": 189.0}, "kinematic": [[9990.0, 0.0]], "branches": [[0.19, 0.117]], "dt": 1.56,
+          "eps_y": 138.0 / 219000.0, "id": "corpus-kinematic-with-branch-tangent", "combo": ["VonMises", "Voce", "Prager", "none", 1, "3D", "iso"],
+          "path_kind": "proportional", "path": [[0.0008 * k, -0.0003 * k, -0.0002 * k, 0.0002 * k, 0.0, 0.0001 * k] for k in (1, 2, 3)],
+          "fd_steps": [2], "fd_h": 1.2e-6, "compare_solver": False}
+    return [c1, c2]
